@@ -328,15 +328,18 @@ parse_next_record_header:
         {
             if (MATRIX_IS_SERVER(ssl) &&
                     ssl->tls13ServerEarlyDataEnabled == PS_FALSE &&
-                    ssl->extFlags.got_early_data == 1)
+                    ssl->extFlags.got_early_data == 1 &&
+                    ssl->rec.len > AEAD_TAG_LEN(ssl))
             {
                 /* If server does not accept early_data then ignore decrypt errors
                    to up-to configured ssl->tls13SessionMaxEarlyData bytes.
                    (TLS1.3 spec chapt. 4.2.10) */
                 psTraceInt("Ignored %d bytes of possible early_data\n",
                         ssl->rec.len - AEAD_TAG_LEN(ssl) - 1);
+                /* Every skipped record uses up some of the allowance, also
+                   one with no payload, so that the skipping is bounded */
                 ssl->tls13ReceivedEarlyDataLen +=
-                    (ssl->rec.len - AEAD_TAG_LEN(ssl)- 1);
+                    PS_MAX(ssl->rec.len - AEAD_TAG_LEN(ssl) - 1, 1);
                 ssl->tls13EarlyDataStatus = MATRIXSSL_EARLY_DATA_REJECTED;
                 if (ssl->tls13ReceivedEarlyDataLen <= ssl->tls13SessionMaxEarlyData)
                 {
@@ -365,6 +368,15 @@ parse_next_record_header:
             ssl->err = SSL_ALERT_BAD_RECORD_MAC;
             psTraceErrr("Couldn't decrypt record data\n");
             goto encodeResponse;
+        }
+
+        if (MATRIX_IS_SERVER(ssl) &&
+                ssl->tls13ServerEarlyDataEnabled == PS_FALSE)
+        {
+            /* 4.2.10: the first record that deprotects is the start of the
+               client's second flight. There is no rejected early data to
+               skip past after it: a later decrypt failure is fatal. */
+            ssl->extFlags.got_early_data = 0;
         }
 
         ptLen = ssl->rec.len - AEAD_TAG_LEN(ssl);
